@@ -72,7 +72,9 @@ func (calc *convexHullCalculator) getConvexHull() geom.T {
 
 	// use heuristic to reduce points, if large
 	if len(calc.inputPts)/calc.stride > 50 {
-		reducedPts = calc.reduce(calc.inputPts)
+		// reduce may hand its argument back, which is then sorted in place: give it the
+		// de-duplicated copy, never the caller's coordinates.
+		reducedPts = calc.reduce(reducedPts)
 	}
 	// sort points for Graham scan.
 	calc.preSort(reducedPts)
@@ -226,7 +228,8 @@ func (calc *convexHullCalculator) padArray3(pts []float64) []float64 {
 		if i < len(pts) {
 			pad[i] = pts[i]
 		} else {
-			pad[i] = pts[0]
+			// repeat the first coordinate (all of its ordinates, not just its first one)
+			pad[i] = pts[i%calc.stride]
 		}
 	}
 	return pad
